@@ -139,6 +139,16 @@ v("C20-dollar", "C20", "fire", "task_identifier.py", "\"^{}\\\\Z\".format(IDENTI
 v("C20-dot", "C20", "fire", "task_identifier.py", "IDENTIFIER_GROUP = \"[a-zA-Z0-9_-]+\"", "IDENTIFIER_GROUP = \"[a-zA-Z0-9_.-]+\"", "RX1")
 v("C20-twin-fullmatch", "C20", "silent", "task_identifier.py", "        return _NAME_REGEX.match(candidate) is not None", "        return _NAME_REGEX.fullmatch(candidate) is not None")
 
+v("C12-tar-status-ignored", "C12", "fire", "cli/restore.py", "        if process.returncode != 0:\n            raise ArchiveFileInvalid", "        if process.returncode < 0:\n            raise ArchiveFileInvalid", "RS4")
+v("C12-twin-tar-wait-value", "C12", "silent", "cli/restore.py", "        process.wait()\n        if process.returncode != 0:", "        rc = process.wait()\n        if rc:")
+v("C12-twin-commit-guard", "C12", "silent", "execution/version_index.py", "        if not self._conn.in_transaction:\n            return\n        self._conn.commit()", "        if self._conn.in_transaction:\n            self._conn.commit()")
+v("C12-commit-guard-inverted", "C12", "fire", "execution/version_index.py", "        if not self._conn.in_transaction:\n            return\n        self._conn.commit()", "        if not self._conn.in_transaction:\n            self._conn.commit()", "VI1")
+v("C03-twin-stop-flag-inline", "C03", "silent", "execution/executor.py", "                    should_stop = self._launch_ops_if_able(ctx, stop_on_first_error)\n                    if should_stop:\n                        break", "                    if self._launch_ops_if_able(ctx, stop_on_first_error):\n                        break")
+v("C03-stop-flag-ignored", "C03", "fire", "execution/executor.py", "                    should_stop = self._launch_ops_if_able(ctx, stop_on_first_error)\n                    if should_stop:\n                        break", "                    should_stop = self._launch_ops_if_able(ctx, stop_on_first_error)\n                    if should_stop:\n                        pass", "EX10")
+v("C09-twin-dict-pop", "C09", "silent", "execution/executor.py", "        handle, task = self._processes[pid]\n        del self._processes[pid]\n", "        handle, task = self._processes.pop(pid)\n")
+v("C01-twin-all-loop", "C01", "silent", "execution/ops/operation.py", "        return all(map(lambda task: task.succeeded(), self.exe_deps))", "        for d in self.exe_deps:\n            if not d.succeeded():\n                return False\n        return True")
+v("C01-any-loop", "C01", "fire", "execution/ops/operation.py", "        return all(map(lambda task: task.succeeded(), self.exe_deps))", "        for d in self.exe_deps:\n            if d.succeeded():\n                return True\n        return False", "EX4")
+
 
 def _run_variant(var) -> Tuple[str, str, str]:
     id_, prop, kind, rel, old, new, rule = var
